@@ -92,21 +92,37 @@ Proof.
     + unfold len in Hlen. lia.
 Qed.
 
+(* what is known about the written nodes of a finished build (used for C12) *)
+Definition final_store (p : parsed) (E2 : store) (zg : bool) (ev : N) : Prop :=
+  p_nodes p = rev E2 /\ store_ok E2 /\ tgt_ok E2 (p_root p) /\
+  (forall a0 s, In (a0, s) E2 -> a0 <> p_root p -> trimmed (bn_of s)) /\
+  (forall a0, In a0 (addrs E2) -> a0 <= p_root p) /\
+  cgood E2 /\
+  Forall (fun x => ~ is_sentinel (snd x)) (strip E2) /\
+  (forall a0, In a0 (addrs E2) -> reach E2 (p_root p) a0) /\
+  (zg = false -> ev = 0 -> NoDup (map snd (strip E2))) /\
+  elang E2 (p_root p) = p_content p.
+
 Section Main.
 Hypothesis Hcodec : codec_statement.
 Hypothesis Htotal : compile_total_statement.
 Variable ty : N.
 Variable ver : N.
+Variable zg : bool.
 Hypothesis Hver : 1 <= ver <= 3.
 
 (* ---------- the fresh builder ---------- *)
 Lemma init_inv rows cols G rem :
+  zg = (rows * cols =? 0) ->
   1 + rem <= G -> NODE_MAX * G + 100 < U64 ->
   inv ver ty G rem [] [] (new_builder_v ver ty rows cols) /\ last_ok [] (new_builder_v ver ty rows cols) /\
-  cinv [] (new_builder_v ver ty rows cols).
+  cinv zg [] (new_builder_v ver ty rows cols).
 Proof.
-  intros HG1 HG2. split; [|split; [reflexivity|]].
-  2:{ split; [exact I|]. unfold Cstk. cbn. split; [intros t []|exact I]. }
+  intros Hzg HG1 HG2. split; [|split; [reflexivity|]].
+  2:{ split; [exact I|]. split; [unfold Cstk; cbn; split; [intros t []|exact I]|].
+      split; [|intros a []]. split; [constructor|]. subst zg. cbn [new_builder_v b_write b_reg reg_new r_rows r_cols].
+      destruct (N.eqb_spec (rows * cols) 0) as [Hz|Hz]; [exact Hz|].
+      split; [exact Hz|]. intros _. apply BuilderBasics.reg_inv_new. exact Hz. }
   constructor.
   - split; [exact I|]. split; [|apply reg_ok_new].
     constructor; try reflexivity.
@@ -148,14 +164,16 @@ Lemma b_finish_ok summer G E acc b :
     p_checksum p = (if 3 <=? ver then Some (summer (firstn (length bs - 4) bs)) else None) /\
     Forall (fun x => x < 256) bs /\
     fuel_ok (graph_of (node_table (p_nodes p))) (p_root p) /\
-    (cinv E b -> canonical_outputs (graph_of (node_table (p_nodes p)))) /\
-    p_root p < U64.
+    (cinv zg E b -> canonical_outputs (graph_of (node_table (p_nodes p)))) /\
+    p_root p < U64 /\
+    exists stats, b_finish_full summer b = Ok (bs, stats) /\
+      (cinv zg E b -> exists E2, final_store p E2 zg (BuilderBasics.stats_evictions stats)).
 Proof.
   intros [Hm Hs Htop Hlen Hbud HG Hna Hkb Htrim Htf Hbb] Hty Hsum.
   unfold b_finish, b_finish_full.
   destruct (compile_from b 0) as [b1 r1] eqn:Hcf.
-  destruct (compile_from_ok Hcodec Htotal ty ver Hver E b (lastkey acc) (rev acc) 0 b1 r1 Hm Hs) as
-    (E1 & -> & Hm1 & F1 & F2 & Flen & Fs & _ & Ftrim & Fbb & FC); auto.
+  destruct (compile_from_ok Hcodec Htotal ty ver zg Hver E b (lastkey acc) (rev acc) 0 b1 r1 Hm Hs) as
+    (E1 & -> & Hm1 & F1 & F2 & Flen & Fs & _ & Ftrim & Fbb & FC & FGR); auto.
   { unfold len, NODE_MAX in *. lia. }
   cbn [firstn] in Fs. destruct Fs as [Fsh Fu FW Fd FL].
   destruct (b_stack b1) as [|root rest] eqn:Hst1; [destruct Fsh|]. cbn [shape] in Fsh.
@@ -166,17 +184,17 @@ Proof.
   assert (Hsz1 : NODE_MAX * (len E1 + 1) + 100 < U64).
   { unfold len, NODE_MAX in *. cbn [length] in *. lia. }
   pose proof (compile_bbytes ver ty E1 b1 _ b2 r2 Hm1 Hnok Hsz1 Hc2 Fbb) as Hbb2.
-  destruct (compile_ok Hcodec Htotal ver ty E1 b1 _ b2 r2 Hver Hm1 Hnok Hsz1 Hc2) as (E2 & a & -> & Hm2 & _ & _ & G3 & Hcase).
+  destruct (compile_ok Hcodec Htotal ver ty E1 b1 _ b2 r2 Hver Hm1 Hnok Hsz1 Hc2) as (E2 & a & -> & Hm2 & _ & _ & G3 & Hcase & Hstrip).
   cbn [Lstk] in FL. rewrite Hrl, app_nil_r in FL.
   (* the root is the last node written, or the whole file is the empty final node *)
   assert (Hroot : (E2 = [] /\ a = 0 \/ E2 <> [] /\ a = top_addr E2) /\
                   (if a =? 0 then [([], 0)] else elang E2 a) = rev acc /\
                   (forall a0 s, In (a0, s) E2 -> a0 <> a -> trimmed (bn_of s)) /\
-                  (cinv E b -> cgood E2)).
+                  (cinv zg E b -> cgood E2 /\ Ginv zg b2 E2 /\ (forall a0, In a0 (addrs E2) -> reach E2 a a0))).
   { destruct Hm1 as (HE1 & _). destruct Hm2 as (HE2 & _).
-    assert (HFro : cinv E b -> cgood E1 /\ Fro (elang E1) (u_node root)).
-    { intros (Hcg & HCs). destruct (FC 0 Hcg HCs) as (Hcg1 & HC1). split; [exact Hcg1|].
-      cbn [Cpost] in HC1. tauto. }
+    assert (HFro : cinv zg E b -> cgood E1 /\ Fro (elang E1) (u_node root) /\ Ginv zg b1 E1 /\ Rinv E1 [root]).
+    { intros (Hcg & HCs & HGi & HRi). destruct (FC 0 Hcg HCs) as (Hcg1 & HC1). split; [exact Hcg1|].
+      destruct (FGR HGi HRi) as (HG1 & HR1). cbn [Cpost] in HC1. tauto. }
     destruct Hcase as [(-> & [(-> & Hsen)|(s & Hin & Hsn)])|(s & -> & Hsn)].
     - (* nothing was ever written *)
       assert (E1 = []).
@@ -185,7 +203,9 @@ Proof.
         rewrite Hnt, Hrl in Fd. destruct Fd as [Fd|(Fd & _)]; [inversion Fd|congruence]. }
       subst E1. split; [left; auto|]. change (0 =? 0) with true. cbv iota.
       split; [rewrite <- FL; symmetry; apply lang_node_sentinel; exact Hsen|].
-      split; [intros a0 s []|intros _; exact I].
+      split; [intros a0 s []|]. intros Hci. destruct (HFro Hci) as (_ & _ & HG1 & _).
+      split; [exact I|]. split; [|intros a0 []].
+      apply (Ginv_step zg b1 (u_node root) b2 0 [] []); auto. rewrite none_address_1. lia.
     - (* the root cannot be an older node: it points to something at or above every written node *)
       exfalso. destruct (store_in_node_ok _ _ _ HE1 Hin) as (_ & Hlt & _).
       specialize (Fd a (store_in_addrs _ _ _ Hin)). cbn [dom] in Fd. rewrite Hrl in Fd.
@@ -199,7 +219,14 @@ Proof.
       split; [rewrite (elang_in _ _ _ HE2 Hin), Hsn; rewrite lang_node_cons; auto|].
       split.
       + intros a0 s0 [Hin0|Hin0] Hne; [inversion Hin0; congruence|]. eapply strim_in; eauto.
-      + intros Hci. destruct (HFro Hci) as (A & B). cbn [cgood]. split; [exact A|]. rewrite Hsn. exact B. }
+      + intros Hci. destruct (HFro Hci) as (A & B & HG1 & HR1). split; [cbn [cgood]; split; [exact A|]; rewrite Hsn; exact B|].
+        split.
+        * apply (Ginv_step zg b1 (u_node root) b2 a E1 ((a, s) :: E1)); auto. rewrite none_address_1. lia.
+        * intros a0 [<-|Ha0]; [constructor|]. destruct (HR1 a0 Ha0) as (x & Hx & Hreach).
+          unfold ftargets in Hx. cbn [flat_map] in Hx. rewrite app_nil_r in Hx. apply in_map_iff in Hx.
+          destruct Hx as (tx & <- & Htx). eapply reach_step; [left; reflexivity| |].
+          -- rewrite <- Hsn in Htx. exact Htx.
+          -- eapply reach_ext1; [right; eexists; reflexivity|exact Hreach]. }
   destruct Hroot as (Hroot & Hcontent & Htrim2 & Hcg2).
   destruct Hm2 as (HE2 & [B1 B2 B3 B4 B5 B6] & _).
   set (b3 := b_write b2 [u64_le (b_len b2); u64_le a]).
@@ -247,8 +274,14 @@ Proof.
       - rewrite elang_zero. cbn. lia.
       - rewrite Hcontent. unfold pbytes, keys_of. rewrite map_rev, key_bytes_rev. rewrite N.add_0_r in Hkb. exact Hkb. }
     unfold fuel_ok. unfold NODE_MAX, U64 in HG. lia. }
-  split; [|exact Haa].
-  intros Hci. apply canonical_store; auto.
+  split; [intros Hci; apply canonical_store; auto; apply Hcg2; exact Hci|].
+  split; [exact Haa|].
+  exists (b_stats b2). split.
+  { reflexivity. }
+  intros Hci. destruct (Hcg2 Hci) as (Hc2' & (HGs & HGg) & Hreach). exists E2.
+  unfold final_store. cbn [p_nodes p_root p_content]. rewrite ?Hnodes. splits; auto.
+  - intros Hz Hev. rewrite Hz in HGg. apply (BuilderBasics.ri_nodup (b_reg b2)). apply HGg. exact Hev.
+  - destruct (N.eqb_spec a 0) as [->|_]; [apply elang_zero|reflexivity].
 Qed.
 End Main.
 
@@ -277,6 +310,47 @@ Definition built (summer : list N -> N) (ty : N) (content : kmap) (bs : list N) 
     canonical_outputs (graph_of (node_table (p_nodes p))) /\
     p_root p < U64.
 
+Definition built_facts (summer : list N -> N) (ver ty : N) (content : kmap) (bs : list N) (p : parsed) : Prop :=
+    spec_parse bs = Some p /\
+    p_version p = ver /\ p_ty p = ty /\ p_len p = len content /\ p_content p = content /\
+    p_checksum p = (if 3 <=? ver then Some (summer (firstn (length bs - 4) bs)) else None) /\
+    wf_fst_b bs = true /\
+    Forall (fun x => x < 256) bs /\
+    fuel_ok (graph_of (node_table (p_nodes p))) (p_root p) /\
+    canonical_outputs (graph_of (node_table (p_nodes p))) /\
+    p_root p < U64.
+
+(* everything at once: the run, the finish with its cache counters, the parsed file, the ghost store *)
+Theorem build_ops_v_master :
+  codec_statement -> compile_total_statement ->
+  forall (summer : list N -> N) (ver ty rows cols : N) (ops : list op),
+    1 <= ver <= 3 ->
+    calls_ok ops -> Forall op_ok ops ->
+    ty < U64 -> (forall l, summer l < 4294967296) -> size_ok_ops ops ->
+    exists b bs stats p E2,
+      run_extend (new_builder_v ver ty rows cols) ops = (b, Ok tt) /\
+      b_finish_full summer b = Ok (bs, stats) /\
+      built_facts summer ver ty (spec_content None ops []) bs p /\
+      final_store p E2 (rows * cols =? 0) (BuilderBasics.stats_evictions stats).
+Proof.
+  intros Hcodec Htotal summer ver ty rows cols ops Hver Hcalls Hops Hty Hsum Hsize.
+  set (G := 1 + key_bytes (map op_key ops)). set (zg := rows * cols =? 0).
+  destruct (init_inv ty ver zg Hver rows cols G (key_bytes (map op_key ops) + 0)) as (Hi0 & Hl0 & Hc0).
+  { reflexivity. } { unfold G. lia. } { exact Hsize. }
+  destruct (run_extend_ok Hcodec Htotal ty ver zg Hver ops G 0 [] [] _ Hi0 Hl0 Hops Hcalls) as (E & acc & b & Hrun & Hinv & Hrev & HC).
+  change (b_last (new_builder_v ver ty rows cols)) with (@None key) in Hrev.
+  destruct (b_finish_ok Hcodec Htotal ty ver zg Hver summer G E acc b Hinv Hty Hsum) as
+    (bs & p & Hfin & Hparse & P1 & P2 & P3 & P4 & P5 & P6 & P7 & P8 & P9 & stats & Hfull & Hstore).
+  destruct (Hstore (HC Hc0)) as (E2 & HE2).
+  exists b, bs, stats, p, E2. split; [exact Hrun|]. split; [exact Hfull|]. split; [|exact HE2].
+  rewrite Hrev in P4. unfold built_facts. splits; auto.
+  - rewrite P3. rewrite <- Hrev. unfold len. rewrite rev_length. reflexivity.
+  - unfold wf_fst_b. rewrite Hparse, P4.
+    rewrite P3. rewrite <- Hrev at 1. replace (len acc =? len (rev acc)) with true.
+    2:{ symmetry. apply N.eqb_eq. unfold len. rewrite rev_length. reflexivity. }
+    rewrite (spec_content_sorted ops Hcalls), (spec_content_vals_b ops Hops). reflexivity.
+Qed.
+
 Theorem build_ops_v_correct_proof :
   codec_statement -> compile_total_statement ->
   forall (summer : list N -> N) (ver ty rows cols : N) (ops : list op),
@@ -287,21 +361,11 @@ Theorem build_ops_v_correct_proof :
                built_v summer ver ty (spec_content None ops []) bs.
 Proof.
   intros Hcodec Htotal summer ver ty rows cols ops Hver Hcalls Hops Hty Hsum Hsize.
-  set (G := 1 + key_bytes (map op_key ops)).
-  destruct (init_inv ty ver Hver rows cols G (key_bytes (map op_key ops) + 0)) as (Hi0 & Hl0 & Hc0).
-  { unfold G. lia. } { exact Hsize. }
-  destruct (run_extend_ok Hcodec Htotal ty ver Hver ops G 0 [] [] _ Hi0 Hl0 Hops Hcalls) as (E & acc & b & Hrun & Hinv & Hrev & HC).
-  change (b_last (new_builder_v ver ty rows cols)) with (@None key) in Hrev.
-  destruct (b_finish_ok Hcodec Htotal ty ver Hver summer G E acc b Hinv Hty Hsum) as
-    (bs & p & Hfin & Hparse & P1 & P2 & P3 & P4 & P5 & P6 & P7 & P8 & P9).
+  destruct (build_ops_v_master Hcodec Htotal summer ver ty rows cols ops Hver Hcalls Hops Hty Hsum Hsize)
+    as (b & bs & stats & p & E2 & Hrun & Hfull & Hfacts & _).
   exists bs. split.
-  - unfold build_ops_v. rewrite Hrun. exact Hfin.
-  - rewrite Hrev in P4. exists p. splits; auto.
-    + rewrite P3. rewrite <- Hrev. unfold len. rewrite rev_length. reflexivity.
-    + unfold wf_fst_b. rewrite Hparse, P4.
-      rewrite P3. rewrite <- Hrev at 1. replace (len acc =? len (rev acc)) with true.
-      2:{ symmetry. apply N.eqb_eq. unfold len. rewrite rev_length. reflexivity. }
-      rewrite (spec_content_sorted ops Hcalls), (spec_content_vals_b ops Hops). reflexivity.
+  - unfold build_ops_v. rewrite Hrun. unfold b_finish. rewrite Hfull. reflexivity.
+  - exists p. exact Hfacts.
 Qed.
 
 Theorem build_ops_correct_proof :
@@ -374,6 +438,7 @@ Proof.
   - exists bs. split; [exact Hbs|]. rewrite (spec_content_set ks Hk) in Hbuilt. exact Hbuilt.
 Qed.
 
+Print Assumptions build_ops_v_master.
 Print Assumptions build_ops_v_correct_proof.
 Print Assumptions build_map_v_correct_proof.
 Print Assumptions build_ops_correct_proof.
